@@ -3,8 +3,8 @@ package main
 // C19, second file: projection of raw run logs into the Join / Dispatch traces, judges, generators, driver, replay.
 
 import (
-	"encoding/hex"
 	"bytes"
+	"encoding/hex"
 	"encoding/json"
 	"fmt"
 	"os"
